@@ -278,6 +278,34 @@ func hostileInputs(r *core.Rand, which int) []c01Item {
 	}
 	switch which % 10 {
 	case 0: // TWCC announcing many received packets in few octets
+		if r.Bool() {
+			// announced delta octets of 64 KiB and more (where a 16-bit sum wraps), declared length
+			// fitted to the wrapped amount
+			c := 32769 + r.Intn(32767)
+			sym := r.Pick(1, 2, 2, 2)
+			chunks := (c + 8190) / 8191
+			announced := c * sym
+			wrapped := announced % 65536
+			body := wrapped + r.Pick(0, 0, 1, 2, 3, 4, 64)
+			n := 20 + 2*chunks + body
+			n += (4 - n%4) % 4
+			if n > 65532 {
+				n = 65532
+			}
+			b := make([]byte, n)
+			copy(b[4:20], r.Bytes(16))
+			for i := 0; i < chunks; i++ {
+				w := sym<<13 | 0x1FFF
+				b[20+2*i], b[21+2*i] = byte(w>>8), byte(w)
+			}
+			hdr(b, 15, 205)
+			b[14], b[15] = byte(c>>8), byte(c)
+			items = append(items, c01Item{1 + int(gen.TWCC), b}, c01Item{0, b})
+			// the same octets as the head of a larger buffer
+			big := append(append(make([]byte, 0, n+200000), b...), make([]byte, 200000)...)
+			items = append(items, c01Item{1 + int(gen.TWCC), big[:n]})
+			break
+		}
 		n := 20 + 4*r.Intn(6)
 		b := make([]byte, n)
 		copy(b[4:], r.Bytes(n-4))
